@@ -849,6 +849,53 @@ R('fromtext', 1, [lambda e, w: _from_text(e, w),
                   lambda e, w: _from_text(e, w, header=w.arg(['ln']),
                                           strip=' ')], 'io.text',
   stream=('bytes', 0))
+def _mem(e, data):
+    return e.MemorySource(data)
+
+
+def _path(w, name, data):
+    import os
+    p = os.path.join(w.tempdir or '.', name)
+    with open(p, 'wb') as f:
+        f.write(data)
+    return p
+
+
+def _pickle_bytes(w):
+    return b''.join(_pickle.dumps(tuple(r), 2) for r in w.tables[0])
+
+
+def _big_csv_bytes(w):
+    # larger than one 8 KiB read chunk, so that the reader pulls from the
+    # source incrementally while other iterators are live
+    t = w.tables[0]
+    rows = [t[0]] + [r for _ in range(60) for r in t[1:]]
+    return _csv_bytes([[c if not isinstance(c, str) else c + 'x' * 40
+                        for c in r] for r in rows])
+
+
+R('frompickle-mem', 1,
+  [lambda e, w: e.frompickle(_mem(e, _pickle_bytes(w)))], 'io.pickle')
+R('fromcsv-mem', 1,
+  [lambda e, w: e.fromcsv(_mem(e, _csv_bytes(w.tables[0]))),
+   lambda e, w: e.fromcsv(_mem(e, _big_csv_bytes(w)))], 'io.csv',
+  profile='csvsafe')
+R('fromtext-mem', 1,
+  [lambda e, w: e.fromtext(_mem(e, _big_csv_bytes(w)))], 'io.text',
+  profile='csvsafe')
+R('fromjson-mem', 1,
+  [lambda e, w: e.fromjson(_mem(e, _json.dumps(_dicts_of(
+      w.tables[0])).encode()), header=[str(h) for h in w.tables[0][0]])],
+  'io.json')
+R('fromcsv-path', 1,
+  [lambda e, w: e.fromcsv(_path(w, 'f.csv', _csv_bytes(w.tables[0]))),
+   lambda e, w: e.fromcsv(_path(w, 'f.csv.gz', __import__('gzip').compress(
+       _big_csv_bytes(w)))),
+   lambda e, w: e.fromtsv(_path(w, 'f.tsv.bz2', __import__('bz2').compress(
+       _csv_bytes(w.tables[0], '\t'))))], 'io.csv', profile='csvsafe')
+R('frompickle-path', 1,
+  [lambda e, w: e.frompickle(_path(w, 'f.p', _pickle_bytes(w)))],
+  'io.pickle')
 R('fromjson', 1, [lambda e, w: _from_json(e, w),
                   lambda e, w: _from_json(e, w, lines=True)], 'io.json')
 R('fromdicts-gen', 1,
